@@ -193,3 +193,89 @@ emit("store_commit_steps", store_commit)
 emit("seglog_append_steps", append)
 open(out, "w").write("\n".join(L) + "\n")
 print("srcfacts: %d constants, %d step lists" % (len(consts), 15))
+
+# ---------------------------------------------------------------------------------------------
+# C14 (fault model, Fault.v): is the RESULT of every fallible call examined?
+# Still dumb and textual: a call is "checked" when the closing parenthesis of its argument list is
+# directly followed by `?` (or when the call is the tail expression of the function, i.e. its value
+# is the function's result).  `let _ = f();`, `f().ok();`, `f();`, `if let Err(_) = f() {}` are all
+# "not checked".  A function body or a call that is not found yields no entry / a `false` entry,
+# so that the lemmas over these lists FAIL instead of passing silently.
+
+
+def call_sites(body, pat):
+    """[(name, checked)] for every occurrence of `pat` (a regex with one group = the reported name,
+    ending just before the opening parenthesis) in textual order"""
+    res = []
+    for m in re.finditer(pat + r"\s*\(", body):
+        j, depth = m.end() - 1, 0
+        while j < len(body):
+            if body[j] == "(":
+                depth += 1
+            elif body[j] == ")":
+                depth -= 1
+                if depth == 0:
+                    break
+            j += 1
+        rest = body[j + 1:]
+        checked = rest.lstrip().startswith("?") or rest.strip() == "}"
+        res.append((m.start(), m.group(1), checked))
+    return res
+
+
+SYNC_FALLIBLE = [
+    ("bitbox_wait_pre_meta", r"bitbox_sync\s*\.\s*(wait_pre_meta)"),
+    ("beatree_wait_pre_meta", r"beatree_sync\s*\.\s*(wait_pre_meta)"),
+    ("meta_write", r"Meta::(write)"),
+    ("bitbox_post_meta", r"bitbox_sync\s*\.\s*(post_meta)"),
+    ("rollback_wait_post_meta", r"rollback\s*\.\s*(wait_post_meta)"),
+]
+sync_calls = []
+for name, pat in SYNC_FALLIBLE:
+    sites = call_sites(sync_body, pat)
+    if not sites:
+        sync_calls.append((10 ** 9, name, False))       # absent: listed last, not checked
+    for pos, _, checked in sites:
+        sync_calls.append((pos, name, checked))
+sync_calls.sort()
+# every `?` of Sync::sync: a new fallible call that the model does not know changes this count
+sync_try_count = len(re.findall(r"\?", sync_body))
+
+IO_CALL = r"\.\s*(write_all_at|write_all|set_len|sync_all|sync_data|fsync)"
+segrw = strip_comments(read("nomt/src/seglog/segment_rw.rs"))
+io_fns = [
+    ("write_wal", fn_body(wo, r"fn write_wal\([^{]*\{"), IO_CALL),
+    ("truncate_wal", fn_body(wo, r"fn truncate_wal\([^{]*\{"), IO_CALL),
+    ("write_ht", fn_body(wo, r"fn write_ht\([^{]*\{"), IO_CALL),
+    ("meta_write", fn_body(meta, r"pub fn write\([^{]*\{"), IO_CALL),
+    ("seglog_append", fn_body(seg, r"pub fn append\([^{]*\{"),
+     r"\.\s*(create_segment|write_header|write_payload|fsync|sync_all|sync_data)"),
+    ("segment_write_header", fn_body(segrw, r"pub fn write_header\([^{]*\{"), IO_CALL),
+    ("segment_write_payload", fn_body(segrw, r"pub fn write_payload\([^{]*\{"), IO_CALL),
+    ("segment_fsync", fn_body(segrw, r"pub fn fsync\([^{]*\{"), IO_CALL),
+]
+io_calls = []
+for fname, body, pat in io_fns:
+    for _, cname, checked in call_sites(body, pat):
+        io_calls.append((fname, cname, checked))
+# completions of the asynchronous hash-table writes (write_ht): `recv().unwrap().result?`
+for m in re.finditer(r"\.recv\(\)\s*\.unwrap\(\)\s*\.(result)\b", fn_body(wo, r"fn write_ht\([^{]*\{")):
+    rest = fn_body(wo, r"fn write_ht\([^{]*\{")[m.end():]
+    io_calls.append(("write_ht", "recv_result", rest.lstrip().startswith("?")))
+
+
+def coq_bool(b):
+    return "true" if b else "false"
+
+
+F = []
+F.append("")
+F.append("(* C14: the fallible calls of Sync::sync in textual order, with \"its result is followed by `?`\" *)")
+F.append("Definition sync_fallible_calls : list (string * bool) := [%s]." % "; ".join(
+    '("%s", %s)' % (n, coq_bool(c)) for _, n, c in sync_calls))
+F.append("Definition sync_try_count : nat := %d." % sync_try_count)
+F.append("(* C14: (function, I/O call inside its body, \"the result is propagated\") in textual order *)")
+F.append("Definition io_result_calls : list (string * string * bool) := [%s]." % "; ".join(
+    '("%s", "%s", %s)' % (f, c, coq_bool(k)) for f, c, k in io_calls))
+open(out, "a").write("\n".join(F) + "\n")
+print("srcfacts: %d fallible calls in Sync::sync, %d I/O call sites" % (len(sync_calls), len(io_calls)))
